@@ -15,6 +15,7 @@ CONSTANTS N1, N2, N3,         \* the non-cubic box
           Thick,              \* spherical shell thicknesses
           EllRadii,           \* ellipsoid radii are drawn from EllRadii^3 (subsampled by EllPick)
           NameNums,           \* numbers used in names
+          SweepMax,           \* default-centre spheres at EVERY radius 1 .. SweepMax
           CM, CR              \* centre subsampling: centres with (c1 + 2 c2 + 3 c3) % CM = CR (CM = 1: every centre)
 
 NB == <<N1, N2, N3>>
@@ -43,15 +44,26 @@ EShellCases == {q \in {[shape |-> "eshell", n |-> EB, c |-> c, dc |-> (c = Defau
                       \A i \in 1..3 : q.rr[i] - q.t \div 2 >= 1}
 
 NameCases ==
-    {[shape |-> "name", kind |-> "sphere", nums |-> <<r>>, size |-> s] : r \in NameNums, s \in {0, 9, 14}}
-    \cup {[shape |-> "name", kind |-> "cylinder", nums |-> <<r, h>>, size |-> s] : r \in NameNums, h \in NameNums, s \in {0, 11}}
-    \cup {q \in {[shape |-> "name", kind |-> "s_shell", nums |-> <<r, t>>, size |-> 0] : r \in NameNums, t \in NameNums} :
+    {[shape |-> "name", kind |-> "sphere", nums |-> <<r>>, size |-> s, exp |-> 4, pad |-> 0] : r \in NameNums, s \in {0, 9, 14}}
+    \cup {[shape |-> "name", kind |-> "cylinder", nums |-> <<r, h>>, size |-> s, exp |-> 4, pad |-> 0] : r \in NameNums, h \in NameNums, s \in {0, 11}}
+    \cup {q \in {[shape |-> "name", kind |-> "s_shell", nums |-> <<r, t>>, size |-> 0, exp |-> 4, pad |-> 0] : r \in NameNums, t \in NameNums} :
               2 * q.nums[1] >= q.nums[2]}
-    \cup {[shape |-> "name", kind |-> "ellipsoid", nums |-> <<a, b, c>>, size |-> s] :
+    \cup {[shape |-> "name", kind |-> "ellipsoid", nums |-> <<a, b, c>>, size |-> s, exp |-> 4, pad |-> 0] :
               a \in NameNums, b \in NameNums, c \in NameNums, s \in {0, 12}}
-    \cup {q \in {[shape |-> "name", kind |-> "e_shell", nums |-> <<a, b, c, t>>, size |-> s] :
+    \cup {q \in {[shape |-> "name", kind |-> "e_shell", nums |-> <<a, b, c, t>>, size |-> s, exp |-> 4, pad |-> 0] :
               a \in NameNums, b \in NameNums, c \in NameNums, t \in {2, 4}, s \in {0, 16}} :
               \A i \in 1..3 : q.nums[i] - q.nums[4] \div 2 >= 1}
+
+\* option spellings of the name generator: non-default mask_expansion (both parities), numbers with leading zeros
+NameSpellings ==
+    {[shape |-> "name", kind |-> "sphere", nums |-> <<r>>, size |-> 0, exp |-> e, pad |-> p] : r \in NameNums, e \in {0, 3, 6}, p \in {0, 1}}
+    \cup {[shape |-> "name", kind |-> "cylinder", nums |-> <<r, h>>, size |-> s, exp |-> e, pad |-> 1] :
+              r \in NameNums, h \in {2, 3}, s \in {0, 13}, e \in {4, 7}}
+    \cup {[shape |-> "name", kind |-> "s_shell", nums |-> <<3, t>>, size |-> 0, exp |-> e, pad |-> p] : t \in {1, 2}, e \in {1, 4}, p \in {0, 1}}
+    \cup {[shape |-> "name", kind |-> "ellipsoid", nums |-> <<2, 3, 1>>, size |-> 0, exp |-> e, pad |-> 1] : e \in {2, 5}}
+    \cup {[shape |-> "name", kind |-> "e_shell", nums |-> <<3, 2, 4, 2>>, size |-> 0, exp |-> e, pad |-> 1] : e \in {2, 5}}
+SphereSweep == {[shape |-> "sphere", n |-> NB, c |-> DefaultCentre(NB), dc |-> TRUE, r |-> r] : r \in 1 .. SweepMax}
+Empty == [shape |-> "empty", n |-> NB]
 
 \* lists of masks: a pool of overlapping shapes in the non-cubic box, every list of length 1..3 (order matters
 \* for subtraction), plus the truth-table masks (every membership pattern occurs) for lists of 1..5
@@ -61,16 +73,23 @@ Pool == {[shape |-> "sphere", n |-> NB, c |-> <<2, 3, 3>>, dc |-> FALSE, r |-> 2
          [shape |-> "sshell", n |-> NB, c |-> <<3, 3, 3>>, dc |-> FALSE, r |-> 3, t |-> 2],
          [shape |-> "sphere", n |-> NB, c |-> <<0, 0, 0>>, dc |-> FALSE, r |-> 20],
          [shape |-> "sphere", n |-> NB, c |-> <<5, 5, 5>>, dc |-> FALSE, r |-> 1]}
+Full == [shape |-> "sphere", n |-> NB, c |-> <<0, 0, 0>>, dc |-> FALSE, r |-> 20]
+Mid  == [shape |-> "sphere", n |-> NB, c |-> <<3, 3, 4>>, dc |-> FALSE, r |-> 3]
 TB == <<2, 4, 4>>
 Bits(k) == [i \in 1..k |-> [shape |-> "bits", n |-> TB, bit |-> i]]
 BitPerms == {<<1, 2, 3, 4, 5>>, <<5, 4, 3, 2, 1>>, <<3, 1, 5, 2, 4>>}
 AlgebraCases ==
-    {[shape |-> "algebra", n |-> NB, parts |-> <<a>>] : a \in Pool}
-    \cup {[shape |-> "algebra", n |-> NB, parts |-> <<a, b>>] : a \in Pool, b \in Pool}
-    \cup {[shape |-> "algebra", n |-> NB, parts |-> <<a, b, c>>] : a \in Pool, b \in Pool, c \in Pool}
-    \cup {[shape |-> "algebra", n |-> TB, parts |-> [i \in 1..k |-> Bits(5)[p[i]]]] : k \in 1..5, p \in BitPerms}
+    {[shape |-> "algebra", n |-> NB, cont |-> "list", parts |-> <<a>>] : a \in Pool}
+    \cup {[shape |-> "algebra", n |-> NB, cont |-> "list", parts |-> <<a, b>>] : a \in Pool, b \in Pool}
+    \cup {[shape |-> "algebra", n |-> NB, cont |-> "tuple", parts |-> <<a, b, c>>] : a \in Pool, b \in Pool, c \in Pool}
+    \cup {[shape |-> "algebra", n |-> TB, cont |-> "list", parts |-> [i \in 1..k |-> Bits(5)[p[i]]]] : k \in 1..5, p \in BitPerms}
 
-SmallCases == SphereCases \cup CylCases \cup SShellCases \cup EllCases \cup EShellCases \cup NameCases \cup AlgebraCases
+\* the empty mask and the full mask (a sphere far larger than the box) as operands, in every position
+EdgeAlgebra == {[shape |-> "algebra", n |-> NB, cont |-> c, parts |-> ps] : c \in {"list", "tuple"},
+                    ps \in {<<Empty>>, <<Empty, Empty>>, <<Empty, Full>>, <<Full, Empty>>, <<Full, Full>>, <<Full, Empty, Mid>>,
+                            <<Mid, Empty>>, <<Empty, Mid>>, <<Mid, Full>>, <<Full, Mid>>}}
+
+SmallCases == SphereSweep \cup NameSpellings \cup EdgeAlgebra \cup SphereCases \cup CylCases \cup SShellCases \cup EllCases \cup EShellCases \cup NameCases \cup AlgebraCases
 
 \* requests written by the driver, one JSON object per line
 FileSeq == ndJsonDeserialize(IOEnv.CASE_FILE)
